@@ -39,6 +39,7 @@ def check(run):
     traces_root.fixture_chain(run, owns)
     traces_root.random_pairs(run, 400 if quick else 8000, owns)
     traces_root.big_pairs(run, 8 if quick else 100, owns)
+    traces_root.float_version_pairs(run, 120 if quick else 2000, owns)
 
 
 def replay(payload):
